@@ -802,6 +802,16 @@ class Block(object):
             raise PyrtlInternalError('error, op only allowed 3 arguments')
         if net.op in '&|^n+-*<>=' and net.args[0].bitwidth != net.args[1].bitwidth:
             raise PyrtlInternalError('error, args have mismatched bitwidths')
+        if net.op in 'm@':
+            # the shape of op_param is checked here because the checks below use it
+            if not isinstance(net.op_param, tuple):
+                raise PyrtlInternalError('error, mem op requires tuple op_param')
+            if len(net.op_param) != 2:
+                raise PyrtlInternalError('error, mem op requires 2 op_params in tuple')
+            if not isinstance(net.op_param[0], int):
+                raise PyrtlInternalError('error, mem op requires first operand as int')
+            if not isinstance(net.op_param[1], MemBlock):
+                raise PyrtlInternalError('error, mem op requires second operand of a memory type')
         if net.op in 'm@' and net.args[0].bitwidth != net.op_param[1].addrwidth:
             raise PyrtlInternalError('error, mem addrwidth mismatch')
         if net.op == '@' and net.args[1].bitwidth != net.op_param[1].bitwidth:
@@ -820,15 +830,6 @@ class Block(object):
                     raise PyrtlInternalError('error, select op_param requires ints')
                 if p < 0 or p >= net.args[0].bitwidth:
                     raise PyrtlInternalError('error, op_param out of bounds')
-        if net.op in 'm@':
-            if not isinstance(net.op_param, tuple):
-                raise PyrtlInternalError('error, mem op requires tuple op_param')
-            if len(net.op_param) != 2:
-                raise PyrtlInternalError('error, mem op requires 2 op_params in tuple')
-            if not isinstance(net.op_param[0], int):
-                raise PyrtlInternalError('error, mem op requires first operand as int')
-            if not isinstance(net.op_param[1], MemBlock):
-                raise PyrtlInternalError('error, mem op requires second operand of a memory type')
 
         # operation-specific checks on destinations
         if net.op in 'w~&|^n+-*<>=xcsrm' and len(net.dests) != 1:
